@@ -5,7 +5,12 @@ import (
 	gtoken "go/token"
 	"go/types"
 	"strconv"
+	"strings"
 )
+
+// maxExpressionTokens bounds the length of a symbol value or expression after
+// all symbols have been substituted.
+const maxExpressionTokens = 4096
 
 func ExpandAndEvaluate(expr []token, symbols map[string][]token) (int, error) {
 	graph := buildReferenceGraph(symbols)
@@ -77,6 +82,12 @@ func expandValue(key string, values, resolved map[string][]token, graph map[stri
 		} else {
 			output = append(output, token)
 		}
+	}
+
+	// textual substitution can double the length at every level of a chain
+	// of symbols; refuse values that are far longer than any real expression
+	if len(output) > maxExpressionTokens {
+		return nil, fmt.Errorf("symbol '%s' expands to more than %d tokens", key, maxExpressionTokens)
 	}
 
 	resolved[key] = output
@@ -160,10 +171,11 @@ func evaluateExpression(expr []token) (int, error) {
 	combinedExpr := combineSigns(expr)
 	flippedExpr := flipDoubleNegatives(combinedExpr)
 
-	exprStr := ""
+	var exprBuilder strings.Builder
 	for _, tok := range flippedExpr {
-		exprStr += tok.val
+		exprBuilder.WriteString(tok.val)
 	}
+	exprStr := exprBuilder.String()
 
 	fs := gtoken.NewFileSet()
 	tv, err := types.Eval(fs, nil, gtoken.NoPos, exprStr)
